@@ -979,6 +979,19 @@ func ruleWritingOnlyForTmpName(w *core.World, r *core.Report) {
 		}
 		a := s.Args()
 		flag := a[len(a)-1]
+		if _, isStruct := flag.Type().Underlying().(*types.Struct); isStruct {
+			// the constructor takes one record: the flag is the field whose being false the constructor
+			// requires before it verifies the header; its value is what the caller's literal puts there
+			flag = nil
+			if idx, found := fieldTestedFalseBefore(s.Callee, "checkHeader"); found {
+				flag = structFieldAt(a[len(a)-1], idx)
+			}
+			if flag == nil {
+				r.Undecided("NewRdbReader/writing-only-for-temporary-name", s.Pos(), "the reader constructor takes a record; the field that skips the header verification, or the value the caller gives it, could not be read")
+				n++
+				continue
+			}
+		}
 		n++
 		bad := false
 		var pos token.Pos = s.Pos()
@@ -990,6 +1003,31 @@ func ruleWritingOnlyForTmpName(w *core.World, r *core.Report) {
 			}
 			seen[v] = true
 			switch x := v.(type) {
+			case *ssa.Extract:
+				// the flag is a result of a helper of the package that locates the file: every return of the
+				// helper is judged where it stands (the facts of the helper's own branches)
+				c, isCall := x.Tuple.(*ssa.Call)
+				var g *ssa.Function
+				if isCall && !c.Call.IsInvoke() {
+					g = c.Call.StaticCallee()
+				}
+				if g == nil || len(g.Blocks) == 0 || g.Pkg != f.Pkg {
+					bad = true
+					return
+				}
+				nret := 0
+				for _, in := range core.OwnInstrs(g) {
+					if ret, isRet := in.(*ssa.Return); isRet && x.Index < len(ret.Results) {
+						nret++
+						for _, rv := range core.RetVals(ret, x.Index) {
+							visit(rv, ret.Block())
+						}
+					}
+				}
+				if nret == 0 {
+					bad = true
+				}
+				seen[v] = false
 			case *ssa.Phi:
 				for i, e := range x.Edges {
 					visit(e, x.Block().Preds[i])
@@ -1228,7 +1266,10 @@ func ruleFlushOffsetsFollowEveryItem(w *core.World, r *core.Report, c *senderCtx
 			continue
 		}
 		args, ok := c.flushArgsAt(s)
-		if !ok {
+		var offsets []ssa.Value // what the flush may store
+		if ok {
+			offsets = []ssa.Value{args[2]}
+		} else if offsets, ok = c.flushOffsetSources(s); !ok {
 			continue
 		}
 		n++
@@ -1262,7 +1303,9 @@ func ruleFlushOffsetsFollowEveryItem(w *core.World, r *core.Report, c *senderCtx
 			}
 			bad = "a flush stores an offset that is neither the received item's nor the running position: " + v.String()
 		}
-		visit(args[2])
+		for _, o := range offsets {
+			visit(o)
+		}
 		r.Check(bad == "", "sendCmdsBatch/"+c.flushRole(s.Instr)+"/offset-is-the-running-position", pos, "%s", bad)
 	}
 	if n == 0 {
